@@ -1261,6 +1261,20 @@ class _NP:
         out.storage.readonly = True
         return out
 
+    def broadcast_arrays(self, *arrays, subok=False):
+        """numpy.broadcast_arrays: every input repeated up to the common broadcast shape (as for broadcast_to, the
+        results are handed out read-only: numpy warns / refuses writes into them)."""
+        _use("broadcast_arrays")
+        arrs = [as_array(a) for a in arrays]
+        shape = broadcast_shapes([a.shape for a in arrs], "broadcast_arrays")
+        out = []
+        for a in arrs:
+            get = broadcast_getter(a, shape, "broadcast_arrays")
+            r = new_array(shape, lambda idx, get=get: get(idx), a.kind)
+            r.storage.readonly = True
+            out.append(r)
+        return tuple(out)
+
     def block(self, arrays):
         """numpy.block of a rectangular nested list of 2-D blocks: rows joined side by side, then stacked."""
         _use("block")
